@@ -9,7 +9,7 @@
      CB <hashes> <bufsz> <dghex> <sz> <comb> <lim|-> <script>
      VR <hashes> <dghex> <sz> <comb> <script> <ops>          ops: r<k> | v , comma separated
      ST <hashes> <kind> <n> { <namehex> <mthex> <dghex> <sz> <comb> <script> }*n
-        kind: mem | lim<limit> | oci | olim<limit> | file *)
+        kind: mem | lim<limit> | oci | olim<limit> | file ; for file the name field is <namehex>:<resolved path hex> *)
 let fnv (s : n list) : int =
   List.fold_left (fun h c -> ((h lxor (int_of_n c)) * 16777619) land 0xFFFFFFFF) 2166136261 s
 let djb (s : n list) : int =
@@ -49,6 +49,7 @@ let digest_str s = Printf.sprintf "%d:%d" (List.length s) (fnv s)
 let fuel_of evs = S (S (S (ev_weight evs)))
 let base_of evs lim = { b_evs = evs; b_lim = (if lim = "-" then None else Some (z_of_int (int_of_string lim))) }
 let fixed = true
+let cur_name_path : (n list * n list) ref = ref ([], [])
 let total evs = List.length (stream evs)
 
 let () =
@@ -92,12 +93,21 @@ let () =
           let evs = [Data c] in
           let ((e, b), _) = read_all h false fixed (fuel_of evs) (base_of evs "-") dg sz in
           (match e with None -> "OK/" ^ digest_str b | Some e -> err_name e) in
+      let seen = ref [] in
+      (* final sweep: every descriptor of the history is queried again on the final state *)
+      let sweep (observe : n list -> desc -> string) =
+        " Q=" ^ String.concat "," (List.rev_map (fun (nm, d) -> observe nm d) !seen) in
       let rec pushes i rest (step : n list -> desc -> bool -> ev list -> string) =
         if i = 0 then () else
         match rest with
         | name :: mt :: dg :: sz :: comb :: sc :: rest' ->
           let d = { d_mt = str_of_hex mt; d_dg = str_of_hex dg; d_sz = z_of_int (int_of_string sz) } in
-          Buffer.add_string buf (step (str_of_hex name) d (comb = "1") (parse_script sc));
+          let (nm, pth) = match String.index_opt name ':' with
+            | Some i -> (str_of_hex (String.sub name 0 i), str_of_hex (String.sub name (i + 1) (String.length name - i - 1)))
+            | None -> (str_of_hex name, str_of_hex name) in
+          cur_name_path := (nm, pth);
+          seen := (nm, d) :: !seen;
+          Buffer.add_string buf (step nm d (comb = "1") (parse_script sc));
           Buffer.add_string buf " ";
           pushes (i - 1) rest' step
         | _ -> failwith "bad ST case" in
@@ -113,7 +123,9 @@ let () =
           let c = mem_get !st d in
           Printf.sprintf "%s X%d F%s" (res_name e) (if c = None then 0 else 1) (fetch_obs c d.d_dg d.d_sz));
         Buffer.add_string buf ("B=" ^ listing (List.map (fun (d, c) ->
-          Printf.sprintf "%s/%s/%d/%s" (hex_of_str d.d_mt) (hex_of_str d.d_dg) (int_of_z d.d_sz) (digest_str c)) !st))
+          Printf.sprintf "%s/%s/%d/%s" (hex_of_str d.d_mt) (hex_of_str d.d_dg) (int_of_z d.d_sz) (digest_str c)) !st));
+        Buffer.add_string buf (sweep (fun _ d -> let c = mem_get !st d in
+          Printf.sprintf "X%d/F%s" (if c = None then 0 else 1) (fetch_obs c d.d_dg d.d_sz)))
       end else if kind = "oci" || (String.length kind > 4 && String.sub kind 0 4 = "olim") then begin
         let st = ref [] in
         pushes n rest (fun _ d comb evs ->
@@ -127,17 +139,25 @@ let () =
           let f = if valid_digest d.d_dg then fetch_obs (oci_get !st d.d_dg) d.d_dg d.d_sz else "BAD_DIGEST" in
           Printf.sprintf "%s X%s F%s" (res_name e) xs f);
         Buffer.add_string buf ("B=" ^ listing (List.map (fun (dg, c) ->
-          Printf.sprintf "%s/%s" (hex_of_str dg) (digest_str c)) !st) ^ " I=0")
+          Printf.sprintf "%s/%s" (hex_of_str dg) (digest_str c)) !st) ^ " I=0");
+        Buffer.add_string buf (sweep (fun _ d ->
+          let (xe, x) = oci_exists !st d in
+          let xs = match xe with Some e -> err_name e | None -> if x then "1" else "0" in
+          let f = if valid_digest d.d_dg then fetch_obs (oci_get !st d.d_dg) d.d_dg d.d_sz else "BAD_DIGEST" in
+          Printf.sprintf "X%s/F%s" xs f))
       end else if kind = "file" then begin
         let st = ref { f_files = []; f_names = []; f_d2p = []; f_fb = [] } in
         pushes n rest (fun name d comb evs ->
-          let (e, st') = file_push h comb fixed (fuel_of evs) !st name d evs in
+          let (name, path) = !cur_name_path in
+          let (e, st') = file_push h comb fixed (fuel_of evs) !st name path d evs in
           st := st';
           let x = file_exists !st name d in
           let f = fetch_obs (file_fetch !st name d) d.d_dg d.d_sz in
           Printf.sprintf "%s X%d F%s" (res_name e) (if x then 1 else 0) f);
         Buffer.add_string buf ("B=" ^ listing (List.map (fun (nm, c) ->
-          Printf.sprintf "%s/%s" (hex_of_str nm) (digest_str c)) !st.f_files))
+          Printf.sprintf "%s/%s" (hex_of_str nm) (digest_str c)) !st.f_files));
+        Buffer.add_string buf (sweep (fun name d ->
+          Printf.sprintf "X%d/F%s" (if file_exists !st name d then 1 else 0) (fetch_obs (file_fetch !st name d) d.d_dg d.d_sz)))
       end else failwith ("bad store kind " ^ kind));
       Printf.printf "%s %s\n" id (Buffer.contents buf)
     | id :: "PF" :: hs :: kind :: n :: rest ->
@@ -189,6 +209,31 @@ let () =
       let outs = List.sort_uniq compare (List.map show finals) in
       if List.mem observed outs then Printf.printf "%s MEMBER\n" id
       else Printf.printf "%s NOT-REACHABLE observed={%s} model={%s}\n" id observed (String.concat " | " outs)
-    | id :: ("CC" | "PX") :: _ -> Printf.printf "%s UNJUDGED\n" id
+    | id :: "CC" :: hs :: kind :: n :: rest
+      when (kind = "mem" || (String.length kind > 3 && String.sub kind 0 3 = "lim")) && int_of_string n <= 3 && List.mem "OBS" rest ->
+      (* races on one cas.Memory (directly or through LimitedStorage): outcome membership *)
+      let h = mk_h (parse_hashes hs) in
+      let n = int_of_string n in
+      let lim = if kind = "mem" then None else Some (z_of_int (int_of_string (String.sub kind 3 (String.length kind - 3)))) in
+      let rec threads i rest acc =
+        if i = 0 then (List.rev acc, rest) else
+        match rest with
+        | _ :: mt :: dg :: sz :: comb :: sc :: rest' ->
+          let d = { d_mt = str_of_hex mt; d_dg = str_of_hex dg; d_sz = z_of_int (int_of_string sz) } in
+          let evs = parse_script sc in
+          threads (i - 1) rest' ({ m_d = d; m_evs = evs; m_comb = (comb = "1"); m_fuel = fuel_of evs; m_lim = lim; m_pc = MStart } :: acc)
+        | _ -> failwith "bad CC case" in
+      let (ts, rest') = threads n rest [] in
+      let observed = match rest' with "OBS" :: o -> String.concat " " o | _ -> failwith "bad CC obs" in
+      let finals = explore_m h (nat_of_int (3 * n + 2)) { ms_mem = []; ms_thr = ts } in
+      let show st =
+        let rs = List.map (fun r -> match r with Some r -> res_name r | None -> "RUNNING") (mthread_results st) in
+        let bl = List.sort compare (List.map (fun (d, c) ->
+            Printf.sprintf "%s/%s/%d/%s" (hex_of_str d.d_mt) (hex_of_str d.d_dg) (int_of_z d.d_sz) (digest_str c)) st.ms_mem) in
+        Printf.sprintf "%s %s I=-1" (String.concat "," rs) (match bl with [] -> "-" | l -> String.concat ";" l) in
+      let outs = List.sort_uniq compare (List.map show finals) in
+      if List.mem observed outs then Printf.printf "%s MEMBER\n" id
+      else Printf.printf "%s NOT-REACHABLE observed={%s} model={%s}\n" id observed (String.concat " | " outs)
+    | id :: ("CC" | "PX" | "HUGE" | "SX") :: _ -> Printf.printf "%s UNJUDGED\n" id
     | [] -> ()
     | _ -> Printf.printf "BADLINE %s\n" l)
